@@ -103,6 +103,66 @@ def engine_error_log_case(col, minimize, codes=(0, 1, 0, 2, 1)):
                              "input": {"schedule": sched, "minimize_transition_infos": minimize, "codes": codes}})
 
 
+def many_chunks_case(col):
+    """an epoch stored in MANY chunks (chunk size 1, 130 posterior transitions = 130 chunks): the error log and the stored sample count still
+    account for every single transition"""
+    sched = [(0, 1, 1), (3, 7, 1), (4, 130, 1)]
+    codes = [0, 1, 0, 0, 2, 0, 1]
+    eng = make_engine(sched, 1, chains=2, kernels=1, codes=[codes])
+    eng.sample_all_epochs()
+    res = eng.get_results()
+    T = 137
+    want = np.array([codes[t % 7] for t in range(1, T + 1)])
+    log = res.get_error_log().unwrap()["kernel_00"]
+    full = np.zeros((2, T), dtype=int)
+    idx = np.asarray(log.transition)
+    ok = idx.size > 0 and idx.max() < T
+    if ok:
+        full[:, idx] = np.asarray(log.error_codes)
+    ok = ok and np.array_equal(full, np.tile(want, (2, 1)))
+    n_post = int(np.asarray(res.get_posterior_samples()["p0"]).shape[1])
+    ok = ok and n_post == 130
+    col.add(None if ok else {"sig": "native::errors::many_chunks", "what": f"130 posterior transitions stored in 130 chunks: {n_post} posterior samples stored; error log holds {int((full != 0).sum())} "
+                             f"non-zero codes, the kernel returned {int(2 * (want != 0).sum())}", "input": {"schedule": sched, "chunk": 1}})
+
+
+class OtherBookKernel(RecordingKernel):
+    error_book = {0: "no errors", 1: "OTHER kernel, code one", 2: "OTHER kernel, code two"}
+
+
+def two_kernel_classes_case(col):
+    """two kernels of DIFFERENT classes (different documented messages) whose identifiers sort differently from the order they were added in
+    ('zeta' first, then 'alpha'): every entry of the error log / summary carries ITS kernel's class and messages"""
+    import jax
+    import liesel.goose as gs
+    from liesel.goose.engine import Engine
+    from liesel.goose.kernel_sequence import KernelSequence
+    ka, kb = RecordingKernel(["p0"], codes=[0, 1, 0, 0]), OtherBookKernel(["p1"], codes=[0, 0, 2, 0, 1])
+    model = gs.DictInterface(lambda s_: 0.0)
+    for k_, ident in ((ka, "zeta"), (kb, "alpha")):
+        k_.set_model(model)
+        k_.identifier = ident
+    sched = [(0, 1, 1), (3, 6, 1), (4, 10, 1)]
+    eng = Engine(seeds=jax.random.split(jax.random.PRNGKey(1), 2), model_states={"p0": jnp.zeros(2), "p1": jnp.zeros(2)}, kernel_sequence=KernelSequence([ka, kb]),
+                 epoch_configs=[mk_cfg(*c) for c in sched], jitted_sample_duration=2, model=model, position_keys=None, show_progress=False)
+    eng.sample_all_epochs()
+    res = eng.get_results()
+    log = res.get_error_log().unwrap()
+    bad = None
+    for ident, cls in (("zeta", RecordingKernel), ("alpha", OtherBookKernel)):
+        got = log[ident].kernel_cls.unwrap() if hasattr(log[ident].kernel_cls, "unwrap") else log[ident].kernel_cls
+        if got is not cls:
+            bad = f"error log entry of kernel {ident!r} refers to class {getattr(got, '__name__', got)}, the kernel is a {cls.__name__}"
+            break
+    if bad is None:
+        es = Summary(res).error_summary
+        for ident, cls in (("zeta", RecordingKernel), ("alpha", OtherBookKernel)):
+            for code, e in es[ident].items():
+                if e.error_msg != cls.error_book[code]:
+                    bad = f"summary of kernel {ident!r}, code {code}: message {e.error_msg!r}, the kernel documents {cls.error_book[code]!r}"
+    col.add(None if bad is None else {"sig": "native::errors::kernel_class_of_the_entry", "what": bad, "input": {"kernels": [["zeta", "RecordingKernel"], ["alpha", "OtherBookKernel"]]}})
+
+
 def roundtrips(col, seed):
     from liesel.experimental.arviz import to_arviz_inference_data
 
@@ -157,6 +217,14 @@ def bounded(tier, seed):
         except Exception as e:
             col.add({"sig": f"native::errors::exception::{type(e).__name__}", "what": f"{type(e).__name__}: {str(e)[:200]}", "input": {"error_codes": E.tolist()}})
     roundtrips(col, seed)
+    try:
+        two_kernel_classes_case(col)
+    except Exception as e:
+        col.add({"sig": f"native::errors::exception::{type(e).__name__}", "what": f"{type(e).__name__}: {str(e)[:200]}", "input": {"scenario": "two kernel classes"}})
+    try:
+        many_chunks_case(col)
+    except Exception as e:
+        col.add({"sig": f"native::errors::exception::{type(e).__name__}", "what": f"{type(e).__name__}: {str(e)[:200]}", "input": {"scenario": "many chunks"}})
     for mini, cds in ((False, (0, 1, 0, 2, 1)), (True, (0, 1, 0, 2, 1)), (True, (0, 256, 1, 257, 0)), (False, (0, 256, 1, 257, 0))):
         try:
             engine_error_log_case(col, mini, cds)
@@ -166,7 +234,7 @@ def bounded(tier, seed):
         "evaluations": col.evals, "distinct_nontrivial": len(pats) + 4,
         "rule": ("BOUNDED: all 81 single-chain and " + ("500 seeded + 4 fixed" if tier == "quick" else "all 6561") + " two-chain error-code patterns over codes {0,1,2} for 2 burn-in + 2 posterior "
                  "transitions, pushed through the real EpochChainManager / SamplingResults.get_error_log / _make_error_summary / Summary._error_df(per_chain=True) and compared with direct "
-                 "counting; engine runs with thinned epochs with and without minimize_transition_infos, codes {0,1,2} and bit-flag codes {1,256,257} (error log / summary counts and messages per phase); one real engine run (scripted error codes, random-walk kernels, thinning) for the ArviZ (incl. warmup) and pickle round trips, the engine error log and the "
+                 "counting; an epoch stored in 130 chunks of one transition; two kernels of different classes whose identifiers sort differently from the order of adding (class and messages per entry); engine runs with thinned epochs with and without minimize_transition_infos, codes {0,1,2} and bit-flag codes {1,256,257} (error log / summary counts and messages per phase); one real engine run (scripted error codes, random-walk kernels, thinning) for the ArviZ (incl. warmup) and pickle round trips, the engine error log and the "
                  f"reported sample counts. seed={seed}"),
         "samples": [{"error_codes": [[1, 0, 2, 0]]}, {"error_codes": [[0, 0, 1, 1], [0, 0, 0, 2]]}],
         "exhaustive": tier != "quick", "violations": col.violations,
